@@ -24,7 +24,7 @@ CHECKS = {
             "sandbox cannot import) is classified; perturbing calls must lie in a get_state/set_state bracket on every path to a normal exit; keys passed to "
             "randn must derive from a parameter, PRNGKey(constant) or next_key; loop-carried keys must advance; PRNGKey/next_key must depend on their argument; "
             "the Hutchinson loop has a cap conjunct and a +1 counter. Of unbiasedness only two necessary conditions are decided: probe/estimator conjugation agreement and that "
-            "the estimator reads the sign of the offset k (not only abs(k)).",
+            "the estimator reads the sign of the offset k (not only abs(k)). No function writes a new key into an object passed by its caller.",
             "Statistical unbiasedness, variance and the Rademacher-exactness claim are not decided. Exceptional exits inside a bracket are ignored.", "4/C17"),
     "C18": ("ownership / effect analysis: flow-sensitive origins of every in-place write target, parameter-write and return-alias summaries to a fixpoint over the resolved call graph",
             "Full for non-mutation: every in-place write site in cola/ (update_array on numpy/torch, augmented assignment, subscript/attribute store, out=, mutating methods, "
@@ -46,12 +46,13 @@ CHECKS = {
             "Decides the algebraic shape, not the numbers: every explicit _rmatmat must be right-multiplication by the same term its _matmat left-multiplies with (Dense, Sparse, "
             "Product order, Sum, Diagonal broadcasting idiom, Transpose, Adjoint, TriangularInv incl. the lower flag); the default _rmatmat's self-adjoint shortcut must equal X*A "
             "under H(A)=A; each transpose/adjoint rule must equal T(A) / C(T(A)) under its own cond and its operand kind's defining equation; .T/.H must delegate to them; an operator kind "
-            "that subclasses another kind (and is therefore selected by all of its dispatch rules) must represent the same matrix term as its base.",
+            "that subclasses another kind (and is therefore selected by all of its dispatch rules) must represent the same matrix term as its base. Row / column gathers by a permutation "
+            "payload are part of the algebra (X[p] = P X, X[:, p] = X P^T).",
             "Opaque by declaration: FFT, Jacobian, Sliced values, the linear_transpose branch. Numerical agreement for nestings is not decided.", "4/C02"),
     "C03": ("term rewriting of the operator overloads and dot/add/mul/kron/kronsum rules against the matrix expression each stands for; structural checks of shape validation and composite metadata",
             "Decides the algebraic meaning of every Python operator overload of LinearOperator (A+x, A-x, -A, c*A, A/c, c/A, A@B, B@A, the A+0 shortcut) and of every rewrite rule "
             "(factor order for Product/Kronecker/KronSum flattening, multiset for Sum, identity dropping, scalar merging, diagonal Kronecker fusion in row-major order, scalar operator "
-            "placed on the side whose size it has), that Product/Sum constructors and @ validate the contracted dimensions before building, and that the dtype of *Ms composites is a "
+            "placed on the side whose size it has), that block_diag assembles its operands in order without multiplying nested multiplicities, that Product/Sum constructors and @ validate the contracted dimensions before building, and that the dtype of *Ms composites is a "
             "reduction over all parts, and that the scalar operator representing c in c*A is typed by something c influences (refuted on this tree for three rules: known findings).",
             "The value of the represented matrix and error messages are not decided; totality/unambiguity of the combinators is C04.", "4/C03"),
     "C06": ("term rewriting of every inv / pinv rule against inv(A) under the operand kind's defining equation and the factorisation hypotheses; decision tables of the Auto rules",
@@ -64,7 +65,8 @@ CHECKS = {
     "C09": ("term rewriting of the apply_unary / exp / log / pow / sqrt / isqrt rules; decision table of the Auto rule",
             "Decides the algebraic shape of every matrix-function rule: dense paths must be V f(D) V^-1 with V^-1 written as V^H only for the unitary eigenvectors of eigh; structural "
             "rules (Diagonal, BlockDiag with multiplicities, Identity, ScalarMul, Transpose, Adjoint, exp of a Kronecker sum, pow of a Kronecker product) must equal f of the operand "
-            "kind's defining expression; sqrt/isqrt must be pow with exponent +-1/2; the integer shortcuts of pow (0 -> I, 1..9 -> k-fold product, -1 -> inv with the algorithm map); "
+            "kind's defining expression under the guard of each exit; a non-integer power may be distributed over a multiplicative decomposition (Kronecker factors, scalar x operator) "
+            "only under a positivity / integrality guard (refuted on this tree for pow(Kronecker): known finding); sqrt/isqrt must be pow with exponent +-1/2; the integer shortcuts of pow (0 -> I, 1..9 -> k-fold product, -1 -> inv with the algorithm map); "
             "f and alg are forwarded; Auto chooses Eigh/Lanczos only under a guard implying SelfAdjoint.",
             "The Krylov paths (LanczosUnary, ArnoldiUnary), branch choice and accuracy are not decided.", "4/C09"),
     "C11": ("term rewriting / structural comparison of the cholesky and plu rules",
@@ -76,7 +78,8 @@ CHECKS = {
             "Structural necessary conditions of a valid SVD / pseudo-inverse: U, Sigma and V are permuted / sliced by one common index in every rule; Sigma is non-negative by "
             "provenance (backend singular values, sqrt of eigenvalues, ones) and is refuted when it is the rule's own payload; the Krylov rules run the eigen-solver on H(A)A or A H(A) "
             "(not on a transposed Gram matrix) and recover the other factor as A V inv(Sigma) / H(A) U inv(Sigma); pinv structural rules equal the inverse of the payload, the "
-            "least-squares operator has shape (columns, rows); an exit that returns one factor as both U and V is restricted to PSD operands; Auto tables are exhaustive.",
+            "least-squares operator has shape (columns, rows); an exit that returns one factor as both U and V is restricted to PSD operands; the CG pseudo-inverse runs the solver on a Gram matrix whose range contains the vector it is "
+            "applied to for wide and for tall operands; Auto tables are exhaustive.",
             "Orthonormality, best rank-k and minimum-norm optimality are numerical and not decided; the CG pinv rule regularises on purpose and has no exact-algebra obligation.", "4/C16"),
     "C07": ("scalar term rewriting of every slogdet rule against the determinant identities; dependence and sign-domain rules; decision table of the Auto rule",
             "Decides the algebraic shape of the (sign, logabs) pair of every slogdet rule: product of square factors, Kronecker exponent N/n_i on sign and log-magnitude, block "
@@ -114,14 +117,15 @@ CHECKS = {
             "both off-diagonal slots and off-diagonal entries written as norms; the start vector is divided by its norm (not in place) and stored in column 1; the re-orthogonalisation "
             "coefficient conjugates the basis it is later multiplied with; lanczos_eigs sorts ascending and permutes values and vector columns by the same index; diagonal, off-diagonal "
             "and Q are trimmed to N, N-1, N for one size N; the work buffers of init_lanczos are typed by the operator's dtype at every call site; every clip / maximum bound inside the "
-            "factorisation loop has the degree of homogeneity (in the scale of A) of the quantity it guards.",
+            "factorisation loop has the degree of homogeneity (in the scale of A) of the quantity it guards; the loop condition folds to False at an exact breakdown.",
             "Orthonormality, the three-term recurrence, early termination and A Q - Q T are numerical and not decided.", "4/C14"),
     "C15": ("bounded-loop certificate, allocation check of the work buffers, sign provenance, dependence of the normalisation floor on the tolerance, projection convention",
             "Thin structural claim: at most min(max_iters, n) steps; H and Q are zero-initialised (never empty) and sized by the requested cap, which is why extra rows/columns stay zero; "
             "sub-diagonal entries are norms; the new vector is divided by clip(norm, floor) with a floor that depends on tol (a tol-independent floor turns post-breakdown rounding noise "
             "into a unit column with a zero H column); modified Gram-Schmidt conjugates the basis; the first column is the normalised start vector; arnoldi_eigs drops the last row of H "
             "and last column of Q together; the work buffers of init_arnoldi are typed by the operator's dtype at every call site; every clip / maximum bound inside the factorisation "
-            "loop has the degree of homogeneity (in the scale of A) of the quantity it guards (refuted on this tree: known finding).",
+            "loop has the degree of homogeneity (in the scale of A) of the quantity it guards (refuted on this tree: known finding); the loop condition folds to False at an exact "
+            "breakdown; arnoldi_eigs applies no data-dependent mask to the Ritz values.",
             "The Arnoldi relation, orthonormality and breakdown behaviour as numbers are not decided.", "4/C15"),
     "C01": ("dtype-source dataflow over every _matmat/_rmatmat, dependence of composite metadata, role checks of dimensions on the generic paths and the Kronecker / KronSum / BlockDiag contractions",
             "Partial by construction (the value of a product is out of reach): decides that no buffer typed by one side receives data of the other side in place, that the result dtype of "
@@ -135,7 +139,8 @@ CHECKS = {
             "base-class method exists on the base class, that Sliced derives rows from slices[0] and columns from slices[1], stores the caller's index objects unchanged, scatters into an "
             "(A.C, k) buffer whose dtype covers the operand and gathers by the other index (mirror image on the left), that duck-type guards test the attribute they protect, that every "
             "documented index form has an arm and the fall-through raises, that no slice(*s.indices(n)) round trip is used, and that every exit of Sliced._matmat/_rmatmat goes through the "
-            "scatter/gather pair (a size-guarded shortcut that multiplies the parent by the raw operand is refuted).",
+            "scatter/gather pair (a size-guarded shortcut that multiplies the parent by the raw operand is refuted), that index objects of a Sliced are resolved against the parent's shape, and that "
+            "no __getitem__ compares two integer indices raw (negative aliases).",
             "Values for negative / strided / empty slices are delegated to the array library by construction: noted, not proved.", "4/C20"),
 }
 
